@@ -303,6 +303,40 @@ fn cli_block(ctx: &Ctx) {
     }
 }
 
+/// Plaintext sink that goes away before the final chunk: success must not be reported.
+fn cli_closed_sink(ctx: &Ctx) {
+    use crate::cli::{Stdin, Stdout};
+    let mut rng = Rng::fork(ctx.seed, "C04-cli-pipe");
+    let alice = Ident::new("alice", "apw", &mut rng);
+    let bob = Ident::new("bob", "bpw", &mut rng);
+    let wd = WorkDir::new("c04p");
+    wd.write("kr.txt", crate::cli::keyring_text(&[(&alice, true), (&bob, true)]).as_bytes());
+    let pt = rng.bytes(65536 * 4 + 10);
+    let chunking = refspec::natural_chunking(pt.len(), 65536);
+    let kf = refspec::encode_key_file(&alice.sk, &alice.pk, &bob.pk, &rng.arr32(), &rng.arr32(), &pt, &chunking).unwrap();
+    let pf = refspec::encode_pass_file(b"ppw", &rng.arr32(), &pt, &chunking);
+    wd.write("k.ktl", &kf);
+    wd.write("p.ktl", &pf);
+    for (mode, args, pw, stdin) in [
+        ("key", vec!["decrypt", "k.ktl", "-t", "bob", "-k", "kr.txt", "--env-pass"], "bpw", Stdin::Null),
+        ("password", vec!["password", "decrypt", "p.ktl", "--env-pass"], "ppw", Stdin::Null),
+        ("password, input from stdin", vec!["password", "decrypt", "--env-pass"], "ppw", Stdin::Bytes(pf.clone())),
+    ] {
+        let o = Cmd::new(&wd.path, &args).pass(pw).stdin(stdin).stdout(Stdout::ClosedPipe).run();
+        ctx.eval();
+        let case = || json!({"mode": mode, "sink": "stdout is a pipe whose reader is gone", "exit": o.exit.describe(), "stderr": o.stderr_s()});
+        match &o.exit {
+            Exit::Code(1) => {
+                ctx.seen("cli: plaintext sink closed before the final chunk -> exit 1");
+                ctx.distinct(&format!("cli-closed|{}", mode));
+            }
+            Exit::Code(0) => ctx.violation("C04:cli:success-reported-although-the-final-chunk-was-never-delivered", case()),
+            Exit::Timeout => ctx.inconclusive("C04 cli: timeout"),
+            other => ctx.violation(&format!("C04:cli:abnormal-termination:{}", other.describe()), case()),
+        }
+    }
+}
+
 pub fn run(ctx: &Ctx) {
     ctx.rule(
         "each execution is one real decrypt call over a scripted reader/writer; the monitor replays its event log against the reference decoding of the \
@@ -316,6 +350,8 @@ pub fn run(ctx: &Ctx) {
     small_block(ctx);
     production_block(ctx);
     cli_block(ctx);
+    cli_closed_sink(ctx);
+    ctx.require("cli: plaintext sink closed", 3);
     ctx.require("write events judged", 1000);
     ctx.require("failing runs with >=1 chunk already released", 50);
     ctx.require("small: read fault delivered", 100);
